@@ -308,6 +308,110 @@ fn zoo_items() -> Vec<String> {
     v
 }
 
+/// Contexts for the rarely used macro statements and for *every* argument-taking built-in,
+/// each with a hole (the zoo has one fixed instance of each; here the hole is filled with every
+/// chain of depth <= 1 of its type). Kept out of `CONTEXTS` so that the deep chains stay small.
+pub fn rare_contexts() -> Vec<(char, String, char)> {
+    let mut v: Vec<(char, String, char)> = [
+        ('S', "%goto {}~;", 'V'),
+        ('S', "%symdel {} b~/~nowarn~;", 'V'),
+        ('S', "%syslput a~=~{}~/~remote~=~x~;", 'T'),
+        ('S', "%sysrput a~=~{}~;", 'T'),
+        ('S', "%abort return {}~;", 'T'),
+        ('S', "%input a {}~;", 'V'),
+        ('S', "%display {}~;", 'V'),
+        ('S', "%window w #1 @1 {}~;", 'T'),
+        ('S', "%sysexec {}~;", 'T'),
+        ('S', "%syscall f~(~{}~,~x~)~;", 'F'),
+        ('S', "%syscall f~(~x~,~{}~)~;", 'F'),
+        ('S', "%syscall {}~(~a~)~;", 'V'),
+        ('S', "%copy {}~/~source~;", 'V'),
+        ('S', "%sysmacdelete {}~/~nowarn~;", 'V'),
+        ('S', "%include {}~;", 'O'),
+        ('S', "%inc {} / source2;", 'O'),
+        ('S', "%if &a %then {}", 'S'),
+        ('S', "%if &a %then %put a;~%else {}", 'S'),
+        ('S', "%macro m~/~des=\"{}\"~;~%mend~;", 'Q'),
+        ('S', "%macro m~(~a~=~{}~,~b~)~;~%mend~;", 'A'),
+        ('S', "%macro m(p,~k~=~{}~)~/~store;%mend;", 'A'),
+        ('S', "%do i=1 %to 3 %by ~{}~; %end;", 'E'),
+        ('S', "%do %until~(~{}~)~; %end;", 'E'),
+        ('S', "%local a {}~;", 'V'),
+        ('S', "%l: %put {};", 'T'),
+        ('S', "%l:~{}", 'S'),
+    ]
+    .iter()
+    .map(|(a, b, c)| (*a, (*b).to_string(), *c))
+    .collect();
+    for (kw, t) in crate::spaces::macro_keywords() {
+        if !crate::oracles::is_arg_taking_builtin(t) {
+            continue;
+        }
+        let k = kw.to_ascii_lowercase();
+        match t {
+            T::KwmScan | T::KwmQScan | T::KwmKScan | T::KwmQKScan => {
+                v.push(('T', format!("%{k}~(~{{}}~,~2~)"), 'A'));
+                v.push(('T', format!("%{k}~(~a b~,~{{}}~)"), 'E'));
+                v.push(('T', format!("%{k}(a b,~2~,~{{}}~)"), 'A'));
+                v.push(('T', format!("%{k}(a b,~2,~%str( ),~{{}}~)"), 'A'));
+            }
+            T::KwmSubstr | T::KwmQSubstr | T::KwmKSubstr | T::KwmQKSubstr => {
+                v.push(('T', format!("%{k}~(~{{}}~,~1~)"), 'A'));
+                v.push(('T', format!("%{k}~(~abc~,~{{}}~)"), 'E'));
+                v.push(('T', format!("%{k}(abc,~1~,~{{}}~)"), 'E'));
+            }
+            T::KwmSysfunc | T::KwmQSysfunc => {
+                v.push(('T', format!("%{k}~(~f~(~{{}}~)~)"), 'F'));
+                v.push(('T', format!("%{k}(f(1~,~{{}}~)~,~best.~)"), 'F'));
+                v.push(('T', format!("%{k}(~{{}}~(1))"), 'V'));
+            }
+            T::KwmEval => v.push(('T', format!("%{k}~(~{{}}~)"), 'E')),
+            T::KwmSysevalf => {
+                v.push(('T', format!("%{k}~(~{{}}~)"), 'F'));
+                v.push(('T', format!("%{k}(~{{}}~,~floor~)"), 'F'));
+            }
+            T::KwmStr => v.push(('T', format!("%{k}({{}})"), 'T')),
+            T::KwmNrStr => v.push(('T', format!("%{k}({{}})"), 'N')),
+            _ => {
+                v.push(('T', format!("%{k}~(~{{}}~)"), 'A'));
+            }
+        }
+    }
+    v
+}
+
+fn ends_with_bare_call(s: &str) -> bool {
+    let b = s.trim_end_matches(|c: char| c.is_ascii_alphanumeric() || c == '_');
+    b.len() < s.len() && b.ends_with('%')
+}
+
+/// statement-level templates (gap markers still in) built from the rare contexts: every rare
+/// context filled with every chain of depth <= `d` of its hole type; T-level ones inside the
+/// value hosts %let, %put, a double-quoted string, a call argument and an %if expression
+pub fn rare_templates(d: usize) -> Vec<String> {
+    let inner = chains(d);
+    let mut out = Vec::new();
+    const T_HOSTS: &[&str] = &["%let x~=~{};", "%put {}~;", "y=\"{}\";", "%m(~{}~)~;", "%if ~{}~%then~%put a;", "x=~{}~;"];
+    for (own, tmpl, hole) in rare_contexts() {
+        for content in &inner[&hole] {
+            // a bare call directly in front of a '(' would take that parenthesis as its own
+            // argument list; a comment alone is no statement for %then / %else / a label
+            if tmpl.contains("{}~(") && ends_with_bare_call(content) || hole == 'S' && content.starts_with("/*") {
+                continue;
+            }
+            let t = tmpl.replacen("{}", content, 1);
+            if own == 'S' {
+                out.push(t);
+            } else {
+                for h in T_HOSTS {
+                    out.push(h.replacen("{}", &t, 1));
+                }
+            }
+        }
+    }
+    out
+}
+
 fn c12_run(cfg: &Config) -> PropRun {
     let ex = Explorer::new(cfg.threads, cfg.cap_s, if cfg.tier == Tier::Quick { 26 } else { 30 });
     let d = if cfg.tier == Tier::Quick { 4 } else { 5 };
@@ -453,10 +557,48 @@ fn c12_run(cfg: &Config) -> PropRun {
         },
     );
     report.absorb(zoo_report);
+    // rare contexts with holes x statement wrappers of depth <= 1 x fillers
+    let rare = rare_templates(1);
+    let rwrappers: Vec<String> = {
+        let mut w = vec!["{}".to_string()];
+        for c in CONTEXTS.iter().filter(|c| c.0 == 'S' && c.2 == 'S') {
+            w.push(c.1.to_string());
+        }
+        w
+    };
+    let nr = rare.len() as u64;
+    let nrw = rwrappers.len() as u64;
+    let rare_report = ex.run_list(
+        "G.rare(contexts for every rarely used statement and every built-in, hole filled with every chain of depth<=1) x statement contexts x fillers",
+        nr * nrw * nf,
+        |i, buf| {
+            let filler = FILLERS[(i % nf) as usize];
+            let i = i / nf;
+            let t = rwrappers[(i / nr) as usize].replacen("{}", &rare[(i % nr) as usize], 1);
+            apply_filler(&t, filler, buf);
+        },
+        |local, input, _| {
+            local.lexer_runs += 1;
+            match run_lexer(input) {
+                Outcome::Ok(r) if !r.verif.budget_exceeded => {
+                    for s in c12_check(input, &r) {
+                        local.finding(format!("C12 {s}"), input);
+                    }
+                    Visit { cfg: Some(cfg_hash(&r)), nontrivial: r.verif.max_mode_stack_depth >= 6 }
+                }
+                _ => {
+                    local.unobservable += 1;
+                    local.finding("C12 wellformed.no-result".to_string(), input);
+                    Visit { cfg: None, nontrivial: false }
+                }
+            }
+        },
+    );
+    report.absorb(rare_report);
     report.distinct_nontrivial = ex.distinct_nontrivial.load(std::sync::atomic::Ordering::Relaxed);
     PropRun {
         report,
-        rule: format!("every derivation chain of the construct grammar G ({} contexts, 9 hole types) of depth <= {} with every gap filler of {{none, blank, blank+comment+newline, two adjacent comments, comment+blank, a run of 66 hidden tokens, NBSP, VT}}, and of depth <= {d} with one of these fillers per chain (rotating over the chain index); every ordered pair of programs of depth <= {dd} joined by each of 10 separators (blank, nothing, LF, CRLF, TAB, FF, NBSP, U+2028, NEL, commented blank); one well-formed instance of every macro statement keyword and every argument-taking built-in function inside every statement context of depth <= 2 with every filler; non-trivial = mode stack depth >= 6 reached; states/transitions = end configurations at the token boundaries of every {trace_every}th program", CONTEXTS.len(), d - 1),
+        rule: format!("every derivation chain of the construct grammar G ({} contexts, 9 hole types) of depth <= {} with every gap filler of {{none, blank, blank+comment+newline, two adjacent comments, comment+blank, a run of 66 hidden tokens, NBSP, VT}}, and of depth <= {d} with one of these fillers per chain (rotating over the chain index); every ordered pair of programs of depth <= {dd} joined by each of 10 separators (blank, nothing, LF, CRLF, TAB, FF, NBSP, U+2028, NEL, commented blank); one well-formed instance of every macro statement keyword and every argument-taking built-in function inside every statement context of depth <= 2 with every filler; a context with a hole for every rarely used macro statement and for every argument position of every built-in, the hole filled with every chain of depth <= 1, inside every statement context of depth <= 1 with every filler; non-trivial = mode stack depth >= 6 reached; states/transitions = end configurations at the token boundaries of every {trace_every}th program", CONTEXTS.len(), d - 1),
         oracle: "no error at all; end-of-input configuration = ([Default], nesting 0, pending [false], no checkpoint)".into(),
     }
 }
